@@ -5,15 +5,19 @@ leg A  every predefined class: `eq.evolution_rate` (numpy) vs `eq.make_pde_rhs(s
        model `PdeVerif.PDEs.*Rate`, whose abstract operators are instantiated with affine maps
        measured on py-pde's own operators by the harness - with random, DIFFERENT, inhomogeneous
        and time-dependent boundary conditions per operator, at two times per compiled function.
-leg B  class vs `PDE(eq.expression(s))` (1e-5: six printed digits) under the boundary-condition
-       assignments for which text and class denote the same discrete function; the text is
-       re-read with Python's `ast`, compared with the model's template AST, and its field
-       semantics (`PdeVerif.PDEs.rhsValue` = `Ex.eval` at the number type of fields) is compared
-       with both.  For Kuramoto-Sivashinsky / Swift-Hohenberg with inhomogeneous conditions the
-       predicted gap `nu*b` / `2*kc2*b` of the theorem is checked on the real code.
-leg C  generic `PDE` right-hand sides: bc_ops, explicit t, consts (numbers and fields),
-       coordinate dependence, dot/inner/integral, nested operators, multi-field collections
-       (scalar and vector fields): numpy vs numba vs model."""
+leg B  class vs `PDE(eq.expression(s))` (1e-5: six printed digits) for ALL classes under
+       homogeneous AND inhomogeneous conditions (one condition for all operators of the class:
+       `PDE` keys conditions by variable:operator) - the literal clause of the property.  The
+       text is re-read with Python's `ast`, compared with the model's template AST, and its field
+       semantics (`PdeVerif.PDEs.rhsValue` = `Ex.eval` at the number type of fields, the
+       definition of the theorems) is compared with `PDE(text)`.  Where the class-vs-text monitor
+       fails for a text that groups two terms under one Laplacian (Kuramoto-Sivashinsky,
+       Swift-Hohenberg) the deviation is compared with the theorem's `nu*b` / `2*kc2*b`
+       (`symptom` of the failure key).
+leg C  generic `PDE` right-hand sides and `ReactionDiffusionPDE`: bc_ops, explicit t, consts
+       (numbers and fields), coordinate dependence, dot/inner/integral, nested operators,
+       multi-field collections (scalar and vector fields): numpy vs numba vs model
+       (`PdeVerif.PDEs.rhsValuePde`, which also does the bc_ops look-up)."""
 import math
 import os
 import re
@@ -31,6 +35,9 @@ REQUIRED_THEOREMS = [
     "ks_grouped_text_vs_split_class_gap", "swiftHohenberg_grouped_text_vs_split_class_gap",
     "affine_bc_not_odd", "ks_old_compiled_gap", "cahnHilliard_rate_uses_own_bc", "ks_rate_uses_own_bc",
     "wave_as_first_order_system", "exprProd_sound", "exprProd_printed", "affineOp_is_affine", "rhsValue_operator_free",
+    "rhsValue_def", "ks_split_rate_eq_expression", "swiftHohenberg_split_rate_eq_expression", "ks_grouped_vs_split_text",
+    "rhsValueF_congr", "rhsValueF_operator_free", "rhsValueF_operator", "rhsValuePde_operator",
+    "bcIndex_selects", "bcIndex_first", "bcIndex_default", "pdeOp_eq", "sumSquares_eq_sum",
 ]
 RULE = ("cases = (equation class or generic right-hand-side program, parameters incl. the expr_prod branch values "
         "0/1/-1 and 7-digit decimals, grid out of 1-d/2-d Cartesian (periodic or not), polar, spherical, cylindrical, "
@@ -42,10 +49,14 @@ RULE = ("cases = (equation class or generic right-hand-side program, parameters 
 ASSUMPTIONS = [
     "sympy / lambdify / numba are external: validated by this differential run, not verified",
     "the operators themselves (stencils, ghost cells) are the subject of C01-C03; here they are measured on py-pde's "
-    "own field API (affine maps A x + b per operator, boundary condition and time) and only their COMPOSITION is modelled",
+    "own field API (affine maps A x + b per operator, boundary condition and time) and only their COMPOSITION is modelled; "
+    "gradient_squared is modelled as the sum of squares of the measured gradient components",
     "class vs PDE(expression) is compared at 1e-5 of the scale of the rate because the text prints parameters with 6 digits",
-    "Kuramoto-Sivashinsky / Swift-Hohenberg text groups c + nu*lap(c) under one Laplacian: text and class are compared "
-    "for homogeneous conditions; for inhomogeneous ones the theorem's gap nu*b (2*kc2*b) is checked instead",
+    "PDE keys boundary conditions by variable:operator, so class vs PDE(expression) is compared with ONE condition for all "
+    "operators of the class (bc_c = bc_mu, bc_lap = bc); different conditions per operator are compared class-numpy vs "
+    "class-compiled vs model (leg A)",
+    "backends: numba (source semantics and JIT) and the numpy wrapper; the torch and jax backends are not installed here and "
+    "are NOT covered; real-valued states on 1-d/2-d/3-d Cartesian, polar, spherical and cylindrical grids (no complex states)",
 ]
 TRUSTED_EXTRA = ["harness/common/exprs.py (reader/printer), harness desugaring of dot/inner/divergence/gradient into components"]
 TOL = 1e-10
@@ -97,7 +108,8 @@ def dy(rng, lo, hi, den=8):
 
 
 def gen_grid(rng, small=False):
-    kind = rng.choice(["cart1", "cart1", "cart1p", "cart2", "cart2", "cart2p", "unit1", "polar", "polar0", "sph", "cyl"])
+    kind = rng.choice(["cart1", "cart1", "cart1p", "cart2", "cart2", "cart2p", "unit1", "polar", "polar0", "sph", "cyl",
+                       "cart3"])
     n1 = rng.choice([3, 4, 5, 6] if small else [4, 5, 6, 8])
     if kind in ("cart1", "cart1p"):
         lo = dy(rng, -2, 2, 2)
@@ -107,6 +119,10 @@ def gen_grid(rng, small=False):
         per = [False, False] if kind == "cart2" else rng.choice([[True, False], [False, True], [True, True]])
         return {"cls": "CartesianGrid", "bounds": [[0.0, rng.choice([2.0, 3.0])], [dy(rng, -1, 1, 2), 2.5]],
                 "shape": [rng.choice([3, 4]), rng.choice([3, 4])], "periodic": per, "axes": ["x", "y"]}
+    if kind == "cart3":
+        per = rng.choice([[False, False, False], [False, False, False], [False, True, False], [True, False, True]])
+        return {"cls": "CartesianGrid", "bounds": [[0.0, 2.0], [dy(rng, -1, 1, 2), 2.5], [0.0, rng.choice([1.5, 3.0])]],
+                "shape": [2, rng.choice([2, 3]), 2], "periodic": per, "axes": ["x", "y", "z"]}
     if kind == "unit1":
         return {"cls": "UnitGrid", "bounds": [[0.0, float(n1)]], "shape": [n1], "periodic": [rng.random() < 0.3], "axes": ["x"]}
     if kind in ("polar", "polar0", "sph"):
@@ -233,8 +249,9 @@ def gen_class_case_for(rng, i, leg, jit, cls, mode=None):
             if cls == "CahnHilliardPDE":
                 case["bcs"][info["bcs"][1]] = gen_bc(rng, g)
     else:
-        # leg B: one condition for all operators; homogeneous for the grouped texts unless the gap is tested
-        mode = mode or ("same" if cls not in GROUPED else rng.choice(["homogeneous", "homogeneous", "gap"]))
+        # leg B: one condition for all operators of the class (`PDE` keys conditions by variable:operator);
+        # inhomogeneous and homogeneous conditions for EVERY class
+        mode = mode or rng.choice(["inhomogeneous", "inhomogeneous", "inhomogeneous", "homogeneous"])
         bc = gen_bc(rng, g, homogeneous=(mode == "homogeneous"))
         case["mode"] = mode
         case["bcs"] = {b: bc for b in info["bcs"]}
@@ -247,7 +264,8 @@ def gen_generic_case(rng, i, jit):
     g = gen_grid(rng, small=jit)
     n = n_cells(g)
     family = rng.choice(["reaction-diffusion", "nonlinear-diffusion", "nested", "two-fields-dot", "integral", "field-const",
-                         "coordinates", "explicit-t", "vector-first-order", "inner", "random", "outer-tensor"])
+                         "coordinates", "explicit-t", "vector-first-order", "inner", "random", "outer-tensor",
+                         "rd-class", "rd-class"])
     if family in ("vector-first-order", "outer-tensor") and g["cls"] not in ("CartesianGrid", "UnitGrid"):
         # the symmetric curvilinear grids restrict vector fields (no angular components)
         family = "nested"
@@ -261,7 +279,7 @@ def gen_generic_case(rng, i, jit):
             consts[nm] = rng.choice([dy(rng, 0.25, 2, 8), round(rng.uniform(-2, 2), 2)]) or 1.25
     if family in ("field-const", "outer-tensor") or rng.random() < 0.2:
         fconsts["f"] = [dy(rng, 0.5, 2, 8) for _ in range(n)]
-    fields = ["c"] if family not in ("two-fields-dot", "inner", "vector-first-order") else ["c", "d"]
+    fields = ["c"] if family not in ("two-fields-dot", "inner", "vector-first-order", "rd-class") else ["c", "d"]
     if family == "outer-tensor":
         fields = ["T"]
     if rng.random() < 0.25 and len(fields) == 1 and family not in ("vector-first-order", "outer-tensor") and not use_evaluate:
@@ -306,7 +324,31 @@ def gen_generic_case(rng, i, jit):
     rhs = {}
     vector_vars = []
     ranks = {}
-    if family == "reaction-diffusion":
+    rd = None
+    if family == "rd-class":
+        # `ReactionDiffusionPDE(variables, diffusivity, sources)`: d_t c_i = D_i laplace(c_i) + s_i({c_j}, t)
+        if rng.random() < 0.3:
+            fields = ["c"]
+        dvals = [rng.choice([dy(rng, 0.25, 2, 8), round(rng.uniform(0.05, 2), 3), 0.0, 1.0]) for _ in fields]
+        scalar_d = len(set(dvals)) == 1 and rng.random() < 0.5       # a scalar sets the same diffusivity for all species
+        srcs = {}
+        for f in fields:
+            r = rng.random()
+            if r < 0.15:
+                srcs[f] = rng.choice([0, 1.5, -2])                   # a number
+            elif r < 0.25 and len(fields) > 1:
+                pass                                                 # omitted from the dict: defaults to 0
+            else:
+                srcs[f] = X.to_text(local(fields + (["t"] if rng.random() < 0.4 else []), rng.choice([2, 3])))
+        as_list = len(srcs) == len(fields) and rng.random() < 0.5
+        for f, d_ in zip(fields, dvals):
+            src = srcs.get(f, 0)
+            src_ast = X.read_text(src, set(fields) | {"t"}) if isinstance(src, str) else \
+                (X.num(repr(src)) if src >= 0 else X.un("neg", X.num(repr(-src))))
+            rhs[f] = X.bi("add", X.bi("mul", X.num(repr(float(d_))), lap(X.var(f))), src_ast)
+        rd = {"variables": list(fields), "diffusivity": dvals[0] if scalar_d else dvals,
+              "sources": [srcs[f] for f in fields] if as_list else srcs}
+    elif family == "reaction-diffusion":
         rhs["c"] = X.bi("add", X.bi("mul", coef(), lap(c)), local(["c"] + (["t"] if rng.random() < 0.3 and not use_evaluate else [])))
     elif family == "nonlinear-diffusion":
         rhs["c"] = X.bi("sub", lap(local(["c"], 2)), X.bi("mul", coef(), c))
@@ -354,7 +396,7 @@ def gen_generic_case(rng, i, jit):
         # constant (still inhomogeneous) conditions
         vec_op = op == "divergence"
         if rng.random() < 0.6 or vec_op:
-            key = rng.choice([f"{v}:{op}", f"*:{op}", f"{v}:{op}"]) if not use_evaluate else f"{v}:{op}"
+            key = rng.choice([f"{v}:{op}", f"*:{op}", f"{v}:{op}", f"{v}:*"]) if not use_evaluate else f"{v}:{op}"
             if key not in bc_ops:
                 bc_ops[key] = gen_bc(rng, g, timedep=timedep and not vec_op)
     dim = {"CartesianGrid": len(g["axes"]), "UnitGrid": len(g["axes"]), "PolarSymGrid": 2, "SphericalSymGrid": 3,
@@ -365,7 +407,7 @@ def gen_generic_case(rng, i, jit):
     texts = {v: X.to_text(e) for v, e in rhs.items()}
     return {"id": i, "leg": "C", "family": family, "grid": g, "jit": jit, "rhs": texts, "bc": bc, "bc_ops": bc_ops,
             "consts": consts, "fconsts": fconsts, "fields": fields, "vector_vars": vector_vars, "ranks": ranks, "dim": dim,
-            "use_evaluate": use_evaluate,
+            "use_evaluate": use_evaluate, "rd": rd,
             "state": state, "t": rng.choice([0.5, 1.25, round(rng.uniform(0, 3), 3)]), "t2": rng.choice([2.0, 0.75])}
 
 
@@ -439,6 +481,36 @@ def _state_of(case, grid):
     return pde.FieldCollection(fs, labels=CLASSES[case["cls"]]["fields"])
 
 
+class ShapeError(Exception):
+    pass
+
+
+def _flattener(shape, rows, n, out):
+    """strict flattening of a rate: the result must have the shape of the state data.  The only
+    other accepted form is a 0-d number (a right-hand side that is a number, e.g. the text "0", is
+    returned as a scalar by the compiled function: the constant field) - counted in `scalar_results`."""
+    import numpy as np
+
+    def flat(a, what):
+        arr = np.asarray(a, dtype=float)
+        if arr.shape == tuple(shape):
+            return arr.reshape(rows, n).tolist()
+        if arr.ndim == 0:
+            out["scalar_results"] = out.get("scalar_results", 0) + 1
+            return np.broadcast_to(arr, tuple(shape)).reshape(rows, n).tolist()
+        raise ShapeError(f"{what} returned an array of shape {arr.shape} for a state of shape {tuple(shape)}")
+    return flat
+
+
+def _gradient_comps(grid, bc, t, n):
+    """affine maps of the components of the gradient (scalar field -> component j)"""
+    import pde
+
+    return {"comps": [
+        _measure_affine(lambda a, j=j: pde.ScalarField(grid, a.reshape(grid.shape)).gradient(bc=bc, args={"t": t}).data[j].ravel(), n)
+        for j in range(len(grid.axes))]}
+
+
 def _run_class_case(case):
     import numpy as np
     import pde
@@ -450,24 +522,22 @@ def _run_class_case(case):
     eq = _make_eq(case)
     out = {"id": case["id"], "mode": "J" if jit_on else "S"}
     nf = len(CLASSES[case["cls"]]["fields"])
-    # a right-hand side that is a number ("0") is returned as a scalar: it means the constant field
-    flat = lambda a: np.broadcast_to(np.asarray(a, dtype=float), state.data.shape).reshape(nf, n).tolist()
+    flat = _flattener(state.data.shape, nf, n, out)
     rhs = eq.make_pde_rhs(state, backend="numba")
     for tag, t in (("t", case["t"]), ("t2", case["t2"])):
-        out["numpy_" + tag] = flat(eq.evolution_rate(state.copy(), t).data)
-        out["numba_" + tag] = flat(rhs(state.data.copy(), t))
+        out["numpy_" + tag] = flat(eq.evolution_rate(state.copy(), t).data, "evolution_rate")
+        out["numba_" + tag] = flat(rhs(state.data.copy(), t), "make_pde_rhs(numba)")
     # the numpy backend route of make_pde_rhs (wraps evolution_rate)
-    out["numpybackend_t"] = flat(eq.make_pde_rhs(state, backend="numpy")(state.data.copy(), case["t"]))
+    out["numpybackend_t"] = flat(eq.make_pde_rhs(state, backend="numpy")(state.data.copy(), case["t"]), "make_pde_rhs(numpy)")
     if case["leg"] == "B":
         exprs = eq.expressions if hasattr(eq, "expressions") and nf == 2 else {"c": eq.expression}
         out["texts"] = dict(exprs)
         bc = list(case["bcs"].values())[0]
         eq2 = pde.PDE(dict(exprs), bc=bc)
-        out["pde_numpy_t"] = flat(eq2.evolution_rate(state.copy(), case["t"]).data)
         rhs2 = eq2.make_pde_rhs(state, backend="numba")
-        out["pde_numba_t"] = flat(rhs2(state.data.copy(), case["t"]))
-        out["pde_numba_t2"] = flat(rhs2(state.data.copy(), case["t2"]))
-        out["pde_numpy_t2"] = flat(eq2.evolution_rate(state.copy(), case["t2"]).data)
+        for tag, t in (("t", case["t"]), ("t2", case["t2"])):
+            out["pde_numpy_" + tag] = flat(eq2.evolution_rate(state.copy(), t).data, "PDE(expression).evolution_rate")
+            out["pde_numba_" + tag] = flat(rhs2(state.data.copy(), t), "PDE(expression).make_pde_rhs(numba)")
         out["isclose_mobility"] = bool(np.isclose(case["params"].get("mobility", 1), 1))
         from pde.pdes.pde import _EXPRESSION_REPLACEMENT
 
@@ -486,8 +556,9 @@ def _run_class_case(case):
                     ops[f"{role}@{tag}"] = _measure_affine(
                         lambda a, bc=bc, t=t: pde.ScalarField(grid, a.reshape(grid.shape)).laplace(bc=bc, args={"t": t}).data.ravel(), n)
                 else:
-                    f0 = pde.ScalarField(grid, _arr(case["state"]["c"]).reshape(grid.shape))
-                    ops[f"{role}@{tag}"] = {"values": f0.gradient_squared(bc=bc, args={"t": t}).data.ravel().tolist()}
+                    # gradient_squared is not affine: it is the sum of the squares of the (affine, measured)
+                    # components of the gradient; the dedicated operator's own output is NOT fed to the model
+                    ops[f"{role}@{tag}"] = _gradient_comps(grid, bc, t, n)
         out["ops"] = ops
     return out
 
@@ -531,14 +602,12 @@ def desugar(e, dim, vector_vars, ranks=None):
     return res
 
 
-def lookup_bc(case, var, op):
-    """the condition `PDE` uses for operator `op` in the equation of `var` (first match in the
-    order bc_ops were given, then the default)"""
-    for key, bc in case["bc_ops"].items():
-        kv, ko = key.split(":")
-        if (kv == var or kv == "*") and (ko == op or ko == "*"):
-            return bc
-    return case["bc"]
+BC_OPERATORS = ("laplace", "gradient_squared", "gradient", "divergence")
+
+
+def bc_table(case):
+    """the conditions in the order `PDE` consults them: bc_ops as given, then the default"""
+    return list(case["bc_ops"].items()) + [("*:*", case["bc"])]
 
 
 def _run_generic_case(case):
@@ -561,16 +630,26 @@ def _run_generic_case(case):
     consts = dict(case["consts"])
     for k, v in case["fconsts"].items():
         consts[k] = pde.ScalarField(grid, _arr(v).reshape(grid.shape))
-    eq = pde.PDE(dict(case["rhs"]), bc=case["bc"], bc_ops=dict(case["bc_ops"]) or None, consts=consts or None)
+    kw = dict(bc=case["bc"], bc_ops=dict(case["bc_ops"]) or None, consts=consts or None)
+    if case.get("rd"):
+        rd = case["rd"]
+        eq = pde.ReactionDiffusionPDE(rd["variables"], rd["diffusivity"], rd["sources"], **kw)
+    else:
+        eq = pde.PDE(dict(case["rhs"]), **kw)
     out = {"id": case["id"], "mode": "J" if jit_on else "S"}
-
-    def flat(a):
-        return np.broadcast_to(np.asarray(a, dtype=float), state.data.shape).reshape(-1, n).tolist()
+    rows = int(np.prod(state.data.shape)) // n
+    flat = _flattener(state.data.shape, rows, n, out)
 
     rhs = eq.make_pde_rhs(state, backend="numba")
     for tag, t in (("t", case["t"]), ("t2", case["t2"])):
-        out["numpy_" + tag] = flat(eq.evolution_rate(state.copy(), t).data)
-        out["numba_" + tag] = flat(rhs(state.data.copy(), t))
+        out["numpy_" + tag] = flat(eq.evolution_rate(state.copy(), t).data, "evolution_rate")
+        out["numba_" + tag] = flat(rhs(state.data.copy(), t), "make_pde_rhs(numba)")
+    if case.get("rd"):
+        # the class's advertised expressions, as a generic PDE
+        out["texts"] = dict(eq.expressions)
+        eq2 = pde.PDE(dict(eq.expressions), **kw)
+        for tag, t in (("t", case["t"]), ("t2", case["t2"])):
+            out["pde_numpy_" + tag] = flat(eq2.evolution_rate(state.copy(), t).data, "PDE(expressions).evolution_rate")
     if case.get("use_evaluate"):
         from pde.tools.expressions import evaluate
 
@@ -581,47 +660,56 @@ def _run_generic_case(case):
         for backend in ("numpy", "numba"):
             res = evaluate(case["rhs"]["c"], {f.label: f for f in fields}, bc=case["bc"], bc_ops=ebc_ops or None,
                            consts=econsts or None, backend=backend)
-            out["evaluate_" + backend] = flat(res.data)
+            out["evaluate_" + backend] = flat(res.data, f"evaluate({backend})")
     if not jit_on:
-        ops = {}
-        bc_cache = {}
+        # every operator that occurs in some right-hand side is measured once per entry of `bc_ops ++ [default]`;
+        # WHICH entry an equation uses is decided by the model (`PdeVerif.PDEs.bcIndex`), not here.  A combination the
+        # real code cannot build (expression conditions for vector fields...) is recorded as None.
+        used = set()
         for var, text in case["rhs"].items():
             ast = X.read_text(text, set(case["fields"]) | set(consts) | set(case["grid"]["axes"]) | {"t"})
-            used = {nd["f"] for nd in X.walk(ast) if nd["k"] == "call1" and nd["f"] in
-                    ("laplace", "gradient_squared", "gradient", "divergence", "integral")}
-            
-            for tag, t in (("t", case["t"]), ("t2", case["t2"])):
-                d = ops.setdefault(f"{var}@{tag}", {})
-                for op in used:
-                    bc = lookup_bc(case, var, op)
-                    if op != "integral":
-                        bc = _bc_object(grid, bc, 1 if op == "divergence" else 0, bc_cache)
-                    sf = lambda a: pde.ScalarField(grid, a.reshape(grid.shape))
-                    if op == "laplace":
-                        d["laplace"] = _measure_affine(lambda a, bc=bc, t=t: sf(a).laplace(bc=bc, args={"t": t}).data.ravel(), n)
-                    elif op == "integral":
-                        w = np.array([sf(np.eye(n)[j]).integral for j in range(n)])
-                        d["integral"] = {"A": [w.tolist()] * n, "b": [0.0] * n}
-                    elif op == "gradient":
-                        for j in range(dim):
-                            d[f"gradient__{j}"] = _measure_affine(
-                                lambda a, bc=bc, t=t, j=j: sf(a).gradient(bc=bc, args={"t": t}).data[j].ravel(), n)
-                    elif op == "gradient_squared":
-                        # the dedicated operator, measured as a quadratic form through its polarisation is
-                        # not affine: it is measured for the argument it is applied to by the model instead
-                        d["gradient_squared"] = {"comps": [
-                            _measure_affine(lambda a, bc=bc, t=t, j=j: sf(a).gradient(bc=bc, args={"t": t}).data[j].ravel(), n)
-                            for j in range(len(grid.axes))]}
-                    elif op == "divergence":
-                        def div(vec, bc=bc, t=t):
-                            return pde.VectorField(grid, vec.reshape((dim,) + tuple(grid.shape))).divergence(bc=bc, args={"t": t}).data.ravel()
-                        b0 = div(np.zeros(dim * n))
-                        for j in range(dim):
-                            def comp(a, j=j):
-                                v = np.zeros((dim, n))
-                                v[j] = a
-                                return div(v.ravel()) - (b0 if j > 0 else 0)
-                            d[f"divergence__{j}"] = _measure_affine(comp, n)
+            used |= {nd["f"] for nd in X.walk(ast) if nd["k"] == "call1" and nd["f"] in BC_OPERATORS + ("integral",)}
+        bcs = bc_table(case)
+        sf = lambda a: pde.ScalarField(grid, a.reshape(grid.shape))
+        ops = {}
+        bc_cache = {}
+        for tag, t in (("t", case["t"]), ("t2", case["t2"])):
+            table = {}          # name in the desugared text -> [bc look-up name, [instance per entry of bcs]]
+            for op in sorted(used):
+                if op == "integral":
+                    w = np.array([sf(np.eye(n)[j]).integral for j in range(n)])
+                    table["integral"] = ["integral", [{"A": [w.tolist()] * n, "b": [0.0] * n}] * len(bcs)]
+                    continue
+                for k, (_key, bcdata) in enumerate(bcs):
+                    inst = {}
+                    try:
+                        bc = _bc_object(grid, bcdata, 1 if op == "divergence" else 0, bc_cache)
+                        if op == "laplace":
+                            inst["laplace"] = _measure_affine(lambda a: sf(a).laplace(bc=bc, args={"t": t}).data.ravel(), n)
+                        elif op == "gradient":
+                            for j in range(dim):
+                                inst[f"gradient__{j}"] = _measure_affine(
+                                    lambda a, j=j: sf(a).gradient(bc=bc, args={"t": t}).data[j].ravel(), n)
+                        elif op == "gradient_squared":
+                            inst["gradient_squared"] = _gradient_comps(grid, bc, t, n)
+                        elif op == "divergence":
+                            def div(vec):
+                                return pde.VectorField(grid, vec.reshape((dim,) + tuple(grid.shape))).divergence(bc=bc, args={"t": t}).data.ravel()
+                            b0 = div(np.zeros(dim * n))
+                            for j in range(dim):
+                                def comp(a, j=j):
+                                    v = np.zeros((dim, n))
+                                    v[j] = a
+                                    return div(v.ravel()) - (b0 if j > 0 else 0)
+                                inst[f"divergence__{j}"] = _measure_affine(comp, n)
+                    except Exception as ex:             # this combination cannot be built by the real code
+                        inst = None
+                        out.setdefault("unavailable", []).append(f"{op}#{k}: {type(ex).__name__}")
+                    names = {"gradient": [f"gradient__{j}" for j in range(dim)],
+                             "divergence": [f"divergence__{j}" for j in range(dim)]}.get(op, [op])
+                    for nm in names:
+                        table.setdefault(nm, [op, []])[1].append(None if inst is None else inst[nm])
+            ops[tag] = table
         out["ops"] = ops
         out["coords"] = {ax: grid.cell_coords[..., j].ravel().tolist() for j, ax in enumerate(grid.axes)}
     return out
@@ -630,6 +718,8 @@ def _run_generic_case(case):
 # ==========================================================================================
 # model requests
 def enc_op(op, enc):
+    if op is None:
+        return None
     if "values" in op:
         return {"values": [enc(x) for x in op["values"]]}
     if "comps" in op:
@@ -667,15 +757,21 @@ def template_request(case, res):
             fl["mass_is_zero"] = p["mass"] == 0
     else:
         fac = dict(p)
+    if cls == "KuramotoSivashinskyPDE":
+        fac["neg_nu"] = -p["nu"]                 # the factor of the text with the operators written one by one
     if cls == "AllenCahnPDE":
         fl["mobility_is_one"] = bool(res["isclose_mobility"])
     return {"cls": cls, "printed": {k: printed(v) for k, v in fac.items()}, "actual": {k: q(v) for k, v in fac.items()},
             "flags": fl}
 
 
+VALUES_COMPARED = [0]
+
+
 def close_arr(a, b, tol, scale):
     worst = 0.0
     for ra, rb in zip(a, b):
+        VALUES_COMPARED[0] += min(len(ra), len(rb))
         for x, y in zip(ra, rb):
             if not (math.isfinite(x) and math.isfinite(y)):
                 return False, math.inf
@@ -772,28 +868,37 @@ def run(ctx):
     for c in cases:
         judge(ctx, c, S[c["id"]], J.get(c["id"]), slots.get(c["id"]), answers)
     ctx.extra["programs"] = len(cases)
-    ctx.extra["disagreements_checked"] = ctx.impl_traces
+    # individual rate values (cells) compared, model-vs-code and code-vs-code (`traces_validated_against_impl` counts
+    # the rate ARRAYS of the real code compared with the model)
+    ctx.extra["disagreements_checked"] = VALUES_COMPARED[0]
     ctx.extra["jit_cases"] = len(jcases)
 
 
+def text_form(ast):
+    """'grouped' if some Laplacian of the text is applied to a sum (`laplace(c + nu*laplace(c))`), else 'split'"""
+    return "grouped" if any(nd["k"] == "call1" and nd["f"] == "laplace" and nd["a"]["k"] in ("add", "sub")
+                            for nd in X.walk(ast)) else "split"
+
+
+def read_class_texts(cls, texts):
+    """the advertised texts re-read with Python's grammar (after py-pde's short-hand replacements)"""
+    fields = CLASSES[cls]["fields"]
+    return {var: X.strip(X.read_text(expand_shorthand(text), set(fields))) for var, text in texts.items()}
+
+
 def text_requests(batch, c, r):
-    """field semantics of the real expression text (re-read), with one operator per name"""
+    """field semantics of the real expression text (re-read): `PdeVerif.PDEs.rhsValue`"""
     sl = {}
-    fields = CLASSES[c["cls"]]["fields"]
-    exprs = []
-    for var, text in r["texts"].items():
-        ast = X.strip(X.read_text(expand_shorthand(text), set(fields)))
-        exprs.append([var, ast])
-    sl["_asts"] = {v: a for v, a in exprs}
+    asts = read_class_texts(c["cls"], r["texts"])
+    sl["_asts"] = asts
+    exprs = [[v, a] for v, a in asts.items()]
     for tag in ("t", "t2"):
         lap = r["ops"][f"{'lap_c' if c['cls'] == 'CahnHilliardPDE' else 'lap_bc'}@{tag}"]
-        ops = [["laplace", enc_op(lap, q)]]
+        req = {"mode": "Q", "n": n_cells(c["grid"]), "exprs": exprs,
+               "fields": [[f, [q(x) for x in v]] for f, v in c["state"].items()], "lap": enc_op(lap, q)}
         if f"gradsq@{tag}" in r["ops"]:
-            ops.append(["gradient_squared", enc_op(r["ops"][f"gradsq@{tag}"], q)])
-        sl["text_" + tag] = batch.add("c10.rhs", {
-            "mode": "Q", "n": n_cells(c["grid"]), "exprs": exprs,
-            "fields": [[f, [q(x) for x in v]] for f, v in c["state"].items()], "scalars": [],
-            "ops": [[var, ops] for var, _ in exprs]})
+            req["gradsq"] = enc_op(r["ops"][f"gradsq@{tag}"], q)
+        sl["text_" + tag] = batch.add("c10.text", req)
     return sl
 
 
@@ -823,13 +928,12 @@ def generic_requests(batch, c, r):
         fields.append([k, [enc(x) for x in v]])
     for ax, v in r["coords"].items():
         fields.append([ax, [enc(x) for x in v]])
+    bc_keys = [key.split(":") for key in c["bc_ops"]]
     for tag in ("t", "t2"):
         scalars = [[k, enc(v)] for k, v in c["consts"].items()] + [["t", enc(c[tag])]]
-        ops = []
-        for name, _e, var in exprs:
-            ops.append([name, [[k, enc_op(o, enc)] for k, o in r["ops"].get(f"{var}@{tag}", {}).items()]])
-        sl["rhs_" + tag] = batch.add("c10.rhs", {"mode": mode, "n": n, "exprs": [[nm, e] for nm, e, _v in exprs],
-                                                 "fields": fields, "scalars": scalars, "ops": ops})
+        table = [[name, bcname, [enc_op(o, enc) for o in insts]] for name, (bcname, insts) in r["ops"][tag].items()]
+        sl["rhs_" + tag] = batch.add("c10.rhs", {"mode": mode, "n": n, "exprs": exprs, "fields": fields, "scalars": scalars,
+                                                 "bc_keys": bc_keys, "table": table})
     sl["_mode"] = mode
     sl["_names"] = [nm for nm, _e, _v in exprs]
     return sl
@@ -850,10 +954,101 @@ def decode_vec(mode, l):
     return [float(unq(x)) if mode == "Q" else unfbits(x) for x in l]
 
 
+def base_key(c):
+    return {"leg": c["leg"], "cls": c.get("cls") or ("ReactionDiffusionPDE" if c.get("rd") else "PDE"), "family": c.get("family")}
+
+
+def strip_case(c):
+    return {k: v for k, v in c.items() if k not in ("id",)}
+
+
+def monitor_checks(c, rs, rj):
+    """Every evaluation of the property monitor for one case, on results of the real code only
+    (rs: source-semantics run, rj: compiled run or None).  Used by `judge` and by `replay`.
+    Items: {"what", "ok", "worst", "extra" (fields added to the recorded case), "observed", "expected", "msg", "key"}"""
+    leg = c["leg"]
+    key = base_key(c)
+    out = []
+
+    def add(what, ok, worst, extra, observed, expected, msg, **kx):
+        out.append({"what": what, "ok": bool(ok), "worst": worst, "extra": extra, "observed": observed, "expected": expected,
+                    "msg": msg, "key": dict(key, what=what, **kx)})
+
+    # the real code raises on a valid case
+    for r, tag in ((rs, "S"), (rj, "J")):
+        if r is not None and "error" in r:
+            add("raises", False, math.inf, {"exec_mode": tag}, r["error"], "a rate", f"leg {leg}: evaluating the rate raises ({tag})",
+                error=r["error"].split(":")[0])
+    if any(not m["ok"] for m in out):
+        return out
+    # ---- numpy vs compiled, at both times, in both execution modes --------------------------------
+    for r, tag in ((rs, "S"), (rj, "J")):
+        if r is None:
+            continue
+        for t in ("t", "t2"):
+            a, b = r["numpy_" + t], r["numba_" + t]
+            ok, worst = close_arr(a, b, TOL, scale_of(a, b))
+            add("numpy-vs-numba", ok, worst, {"time": c[t], "exec_mode": tag}, {"numba": b, "max_abs_diff": worst}, {"numpy": a},
+                f"leg {leg}: compiled rate differs from the interpreted rate")
+        if "numpybackend_t" in r:
+            ok, worst = close_arr(r["numpy_t"], r["numpybackend_t"], TOL, scale_of(r["numpy_t"]))
+            add("numpy-backend", ok, worst, {"exec_mode": tag}, r["numpybackend_t"], r["numpy_t"],
+                "numpy backend make_pde_rhs differs from evolution_rate")
+    if rj is not None:
+        for t in ("t", "t2"):
+            ok, worst = close_arr(rs["numba_" + t], rj["numba_" + t], TOL, scale_of(rs["numba_" + t]))
+            add("S-vs-J", ok, worst, {"time": c[t], "exec_mode": "J"}, rj["numba_" + t], rs["numba_" + t],
+                "compiled code differs from its own source semantics")
+    # ---- evaluate(text) vs PDE(text) ---------------------------------------------------------------------
+    if leg == "C" and c.get("use_evaluate"):
+        for r, tag in ((rs, "S"), (rj, "J")):
+            if r is None:
+                continue
+            for route in ("evaluate_numpy", "evaluate_numba"):
+                ok, worst = close_arr(r["numpy_t"], r[route], TOL, scale_of(r["numpy_t"]))
+                add("evaluate-vs-pde", ok, worst, {"exec_mode": tag, "route": route}, r[route], r["numpy_t"],
+                    "evaluate(text) differs from the rate of PDE(text)")
+    # ---- the advertised expression(s) -----------------------------------------------------------------------
+    if leg == "B" or c.get("rd"):
+        cls = key["cls"]
+        for r, tag in ((rs, "S"), (rj, "J")):
+            if r is None:
+                continue
+            for t in ("t", "t2"):
+                if "pde_numba_" + t in r:
+                    ok, worst = close_arr(r["pde_numpy_" + t], r["pde_numba_" + t], TOL, scale_of(r["pde_numpy_" + t]))
+                    add("pde-numpy-vs-numba", ok, worst, {"time": c[t], "exec_mode": tag}, r["pde_numba_" + t], r["pde_numpy_" + t],
+                        "PDE(expression): compiled rate differs from the interpreted rate")
+                # the literal clause: class rate == PDE(class's own expression text) up to the six printed digits
+                a, b = r["numpy_" + t], r["pde_numpy_" + t]
+                sc = scale_of(a, b)
+                ok, worst = close_arr(a, b, 1e-5, sc)
+                kx = {"class": cls}
+                if leg == "B":
+                    bvec = rs["ops"][f"{'lap_c' if cls == 'CahnHilliardPDE' else 'lap_bc'}@{t}"]["b"]
+                    inhom = any(abs(x) > 1e-12 for x in bvec)
+                    form = text_form(read_class_texts(cls, r["texts"])["u" if "u" in r["texts"] else "c"]) \
+                        if cls in GROUPED else "plain"
+                    kx.update(bc="inhomogeneous" if inhom else "homogeneous", text=form)
+                    if not ok:
+                        # is the deviation exactly the one the theorem `*_grouped_text_vs_split_class_gap` predicts for a
+                        # text that puts two terms under one Laplacian?  (text - class = nu*b resp. 2*kc2*b)
+                        kx["symptom"] = "unexplained"
+                        if cls in GROUPED and form == "grouped":
+                            fac = c["params"]["nu"] if cls == "KuramotoSivashinskyPDE" else 2 * c["params"]["kc2"]
+                            pred = [[x + fac * bi for x, bi in zip(a[0], bvec)]]
+                            if close_arr(pred, b, 1e-5, sc)[0]:
+                                kx["symptom"] = "offset-of-grouped-laplacian"
+                add("class-vs-expression", ok, worst, {"time": c[t], "exec_mode": tag, "text": r["texts"]},
+                    {"pde_expression": b, "max_abs_diff": worst}, {"class": a},
+                    "PDE(eq.expression) differs from the class rate beyond the printed digits"
+                    + (f" [{kx['symptom']}]" if kx.get("symptom") else ""), **kx)
+    return out
+
+
 def judge(ctx, c, rs, rj, sl, answers):
     leg = c["leg"]
-    case = {k: v for k, v in c.items() if k not in ("id",)}
-    key = {"leg": leg, "cls": c.get("cls", "PDE"), "family": c.get("family")}
+    case = strip_case(c)
     ctx.hist("leg", leg + ("/jit" if c["jit"] else ""))
     ctx.hist("grid", c["grid"]["cls"] + f"/{len(c['grid']['shape'])}d" + ("/periodic" if any(c["grid"]["periodic"]) else ""))
     if leg in ("A", "B"):
@@ -865,42 +1060,30 @@ def judge(ctx, c, rs, rj, sl, answers):
     else:
         ctx.hist("family", c["family"])
         ctx.hist("bc_ops", len(c["bc_ops"]))
-    for r, tag in ((rs, "S"), (rj, "J")):
+        if c.get("rd"):
+            ctx.hist("class", "ReactionDiffusionPDE")
+
+    # ---- the monitor, on the real code only ----------------------------------------------------------
+    checks = monitor_checks(c, rs, rj)
+    for m in checks:
+        if m["what"] != "raises":
+            ctx.monitor_evals += 1
+        if m["what"] == "class-vs-expression":
+            ctx.hist("class_vs_expression", f"{m['key']['class']}:{m['key'].get('bc', '-')}:{m['key'].get('text', '-')}:"
+                                            f"{'ok' if m['ok'] else m['key'].get('symptom')}")
+        if not m["ok"]:
+            ctx.monitor_fail(leg, dict(case, **m["extra"]), m["observed"], m["expected"], m["msg"], key=m["key"])
+    for r in (rs, rj):
         if r is not None and "error" in r:
             ctx.count(case, nontrivial=False, leg=leg)
             ctx.hist("impl_error", r["error"].split(":")[0])
-            ctx.monitor_fail(leg, case, r["error"], "a rate", f"leg {leg}: evaluating the rate raises ({tag})",
-                             key=dict(key, error=r["error"].split(":")[0]))
             return
     if sl is None:
         return
-
-    # ---- monitor: numpy vs compiled, at both times, in both execution modes ---------------------
+    for r in (rs, rj):
+        if r is not None and r.get("scalar_results"):
+            ctx.hist("scalar_results", leg, r["scalar_results"])
     nontrivial = True
-    for r, tag in ((rs, "S"), (rj, "J")):
-        if r is None:
-            continue
-        for t in ("t", "t2"):
-            a, b = r["numpy_" + t], r["numba_" + t]
-            sc = scale_of(a, b)
-            ctx.monitor_evals += 1
-            ok, worst = close_arr(a, b, TOL, sc)
-            if not ok:
-                ctx.monitor_fail(leg, dict(case, time=c[t], exec_mode=tag), {"numba": b, "max_abs_diff": worst}, {"numpy": a},
-                                 f"leg {leg}: compiled rate differs from the interpreted rate", key=dict(key, what="numpy-vs-numba"))
-        if "numpybackend_t" in r:
-            ok, worst = close_arr(r["numpy_t"], r["numpybackend_t"], TOL, scale_of(r["numpy_t"]))
-            ctx.monitor_evals += 1
-            if not ok:
-                ctx.monitor_fail(leg, dict(case, exec_mode=tag), r["numpybackend_t"], r["numpy_t"],
-                                 "numpy backend make_pde_rhs differs from evolution_rate", key=dict(key, what="numpy-backend"))
-    if rj is not None:
-        for t in ("t", "t2"):
-            ok, worst = close_arr(rs["numba_" + t], rj["numba_" + t], TOL, scale_of(rs["numba_" + t]))
-            ctx.monitor_evals += 1
-            if not ok:
-                ctx.monitor_fail(leg, dict(case, time=c[t]), rj["numba_" + t], rs["numba_" + t],
-                                 "compiled code differs from its own source semantics", key=dict(key, what="S-vs-J"))
     # the time must matter when the conditions depend on it (otherwise the two-time test is vacuous)
     flat0 = [x for r_ in rs["numpy_t"] for x in r_]
     const_rate = max(flat0) - min(flat0) <= 1e-12 * max(1.0, max(abs(x) for x in flat0))
@@ -933,23 +1116,33 @@ def judge(ctx, c, rs, rj, sl, answers):
         nontrivial = (not const_rate) and (any(offsets) or c["cls"] not in ("DiffusionPDE", "WavePDE")) and distinct_bcs
         ctx.hist("inhomogeneous_offset", any(offsets))
     if leg == "B":
-        judge_text(ctx, c, rs, rj, sl, answers, case, key, model)
+        judge_text(ctx, c, rs, rj, sl, answers, case, model)
     if leg == "C":
         mode = sl["_mode"]
         ctx.hist("number_type", mode)
+        for u in rs.get("unavailable", []):
+            ctx.hist("operator_instance_unavailable", u.split("#")[0] + ":" + u.split(": ")[1])
         for t in ("t", "t2"):
             st, val = answers[sl["rhs_" + t]]
             if st != "ok":
                 ctx.disagree(leg, case, val, None, "model driver error")
                 return
-            mv = [decode_vec(mode, v) for _nm, v in val]
+            mv = [decode_vec(mode, v) for _nm, v, _sel in val]
+            if t == "t":
+                nkeys = len(c["bc_ops"])
+                keys = list(c["bc_ops"])
+                for _nm, _v, sel in val:
+                    for _f, k in sel:
+                        ctx.hist("bc_selected", "default" if k == nkeys else
+                                 ("wildcard-key" if "*" in keys[k] else "exact-key") + ("/not-first" if k > 0 else ""))
             if any(not math.isfinite(x) for row in mv for x in row):
                 ctx.hist("skipped", "model value not finite")
                 continue
             for r, tag in ((rs, "S"), (rj, "J")):
                 if r is None:
                     continue
-                for route in ("numpy_", "numba_"):
+                routes = ["numpy_", "numba_"] + (["pde_numpy_"] if c.get("rd") else [])
+                for route in routes:
                     ctx.impl_traces += 1
                     sc = scale_of(mv, r[route + t])
                     ok, worst = close_arr(mv, r[route + t], 1e-9, sc)
@@ -960,22 +1153,18 @@ def judge(ctx, c, rs, rj, sl, answers):
                     # `evaluate(text, fields, ...)`: same text, same conditions, no time
                     for route in ("evaluate_numpy", "evaluate_numba"):
                         ctx.impl_traces += 1
-                        ctx.monitor_evals += 1
                         ctx.hist("evaluate", route + "/" + tag)
                         ok, worst = close_arr(mv, r[route], 1e-9, scale_of(mv, r[route]))
                         if not ok:
                             ctx.disagree(leg, dict(case, exec_mode=tag, route=route), mv, r[route],
                                          f"{route} differs from the field semantics of the text (max abs diff {worst:.3g})")
-                        ok, worst = close_arr(r["numpy_t"], r[route], TOL, scale_of(r["numpy_t"]))
-                        if not ok:
-                            ctx.monitor_fail(leg, dict(case, exec_mode=tag, route=route), r[route], r["numpy_t"],
-                                             "evaluate(text) differs from the rate of PDE(text)", key=dict(key, what="evaluate-vs-pde"))
         nontrivial = not const_rate
     ctx.count(case, nontrivial=nontrivial, leg=leg)
 
 
-def judge_text(ctx, c, rs, rj, sl, answers, case, key, model):
-    """leg B: advertised expression vs class"""
+def judge_text(ctx, c, rs, rj, sl, answers, case, model):
+    """leg B, correspondence part: the advertised text has the AST of the model's template, and `PDE(text)` computes
+    the field semantics (`rhsValue`) of that text.  (The monitor class-vs-PDE(text) is in `monitor_checks`.)"""
     cls = c["cls"]
     fields = CLASSES[cls]["fields"]
     if not rs.get("shorthand_same", True):
@@ -987,13 +1176,19 @@ def judge_text(ctx, c, rs, rj, sl, answers, case, key, model):
         ctx.disagree("B", case, tmpl, None, "model driver error (template)")
         return
     asts = sl["_asts"]
+    form = "plain"
+    if cls in GROUPED:
+        # two spellings are modelled (`ksExpr`/`ksExprSplit`, `swiftHohenbergExpr`/`...Split`): the text of the tree
+        # as it is groups two terms under one Laplacian, the repaired text writes the operators one by one
+        form = text_form(asts["c"])
+        tmpl = tmpl[form]
     want = {"c": tmpl} if len(fields) == 1 else tmpl
     ctx.impl_traces += 1
     for v in asts:
         if asts[v] != want[v]:
             ctx.disagree("B-template", dict(case, var=v, text=rs["texts"][v]), want[v], asts[v],
                          "the advertised text does not have the AST of the class's template")
-    ctx.hist("text_shape", cls + ":" + "|".join(sorted(X.to_text(a) if False else str(X.size(a)) for a in asts.values())))
+    ctx.hist("text_shape", cls + ":" + form + ":" + "|".join(sorted(str(X.size(a)) for a in asts.values())))
     # 2. field semantics of the text (model) vs PDE(text) (real code), sharp
     sem = {}
     for t in ("t", "t2"):
@@ -1014,67 +1209,84 @@ def judge_text(ctx, c, rs, rj, sl, answers, case, key, model):
                 if not ok:
                     ctx.disagree("B-text", dict(case, time=c[t], exec_mode=tag, route=route.strip("_")), sem[t], r[route + t],
                                  f"PDE(expression) differs from the field semantics of the text (max abs diff {worst:.3g})")
-            ok, worst = close_arr(r["pde_numpy_" + t], r["pde_numba_" + t], TOL, scale_of(r["pde_numpy_" + t]))
-            ctx.monitor_evals += 1
-            if not ok:
-                ctx.monitor_fail("B", dict(case, time=c[t], exec_mode=tag), r["pde_numba_" + t], r["pde_numpy_" + t],
-                                 "PDE(expression): compiled rate differs from the interpreted rate", key=dict(key, what="pde-numpy-vs-numba"))
-    # 3. the property: class rate == PDE(expression) up to the six printed digits
-    mode = c["mode"]
-    ctx.hist("legB_mode", f"{cls}:{mode}")
-    for r, tag in ((rs, "S"), (rj, "J")):
-        if r is None:
-            continue
-        for t in ("t", "t2"):
-            a, b = r["numpy_" + t], r["pde_numpy_" + t]
-            sc = scale_of(a, b)
-            if mode != "gap":
-                ctx.monitor_evals += 1
-                ok, worst = close_arr(a, b, 1e-5, sc)
-                if not ok:
-                    ctx.monitor_fail("B", dict(case, time=c[t], exec_mode=tag, text=r["texts"]), {"pde_expression": b, "max_abs_diff": worst},
-                                     {"class": a}, "PDE(eq.expression) differs from the class rate beyond the printed digits",
-                                     key=dict(key, what="class-vs-expression"))
-            else:
-                # inhomogeneous conditions for a grouped text: the theorem predicts text - class = nu*b (2*kc2*b)
-                bvec = rs["ops"][f"lap_bc@{t}"]["b"]
-                fac = c["params"]["nu"] if cls == "KuramotoSivashinskyPDE" else 2 * c["params"]["kc2"]
-                pred = [[x + fac * bi for x, bi in zip(a[0], bvec)]]
-                ctx.impl_traces += 1
-                ok, worst = close_arr(pred, b, 1e-5, sc)
+    # 3. the theorems about text vs class, on the model's own values (exact arithmetic on the measured operators):
+    #    rhsValue(text) == class rate [+ nu*b resp. 2*kc2*b for the grouped texts] up to the six printed digits
+    ctx.hist("legB_mode", f"{cls}:{c['mode']}")
+    for t in ("t", "t2"):
+        pred = model[t]
+        if form == "grouped":
+            bvec = rs["ops"][f"lap_bc@{t}"]["b"]
+            fac = c["params"]["nu"] if cls == "KuramotoSivashinskyPDE" else 2 * c["params"]["kc2"]
+            pred = [[x + fac * bi for x, bi in zip(model[t][0], bvec)]]
+            if any(abs(x) > 1e-12 for x in bvec):
                 ctx.hist("gap_checked", cls)
-                if not ok:
-                    ctx.disagree("B-gap", dict(case, time=c[t], exec_mode=tag), pred, b,
-                                 "PDE(expression) - class is not the gap nu*b predicted by the theorem")
+        ctx.impl_traces += 1
+        ok, worst = close_arr(pred, sem[t], 1e-5, scale_of(pred, sem[t]))
+        if not ok:
+            ctx.disagree("B-gap", dict(case, time=c[t]), pred, sem[t],
+                         "the field semantics of the text is not the class rate (plus the offset term nu*b of a grouped text) "
+                         "that the theorems *_rate_eq_expression / *_grouped_text_vs_split_class_gap state")
 
 
 def search(ctx, broken):
+    """every case has already been put through all monitors (`monitor_checks`) in `run`: a broken tie without a
+    monitor failure has no failing input on the explored cases"""
     return []
 
 
-def replay(ctx, rep):
-    import json
+REPLAY_EXTRAS = ("exec_mode", "time", "route", "text", "var")
 
-    c = dict(rep["case"])
-    c["id"] = 0
-    mode = c.pop("exec_mode", "S")
-    os.environ["NUMBA_DISABLE_JIT"] = "0" if mode == "J" else "1"
+
+def replay(ctx, rep):
+    """re-run the RECORDED case (same class/program, parameters, grid, conditions, state, times) on the real code in
+    the recorded execution mode (S: numba source semantics, J: compiled; S is always run as well because the
+    S-vs-J monitor and the operator offsets need it), re-evaluate the monitors and judge the recorded symptom
+    (`key.what` at the recorded time / route): False iff it still fails."""
     from harness.common.isolated import run_one
 
-    r = run_one("harness.c10", "worker", c, env={"NUMBA_DISABLE_JIT": "0" if mode == "J" else "1"})
-    if "error" in r:
-        print("error:", r["error"])
+    if "case" not in rep:
+        print("not replayable: the file records no case (kind=%s)" % rep.get("kind"))
         return False
-    ok = True
-    for t in ("t", "t2"):
-        good, worst = close_arr(r["numpy_" + t], r["numba_" + t], TOL, scale_of(r["numpy_" + t]))
-        print(f"t={c[t]}: numpy vs compiled max abs diff {worst:.3g} {'ok' if good else 'DEVIATES'}")
-        ok = ok and good
-        if c["leg"] == "B" and c.get("mode") != "gap":
-            good, worst = close_arr(r["numpy_" + t], r["pde_numpy_" + t], 1e-5, scale_of(r["numpy_" + t]))
-            print(f"t={c[t]}: class vs PDE(expression) max abs diff {worst:.3g} {'ok' if good else 'DEVIATES'}  text={r['texts']}")
-            ok = ok and good
-            good, worst = close_arr(r["pde_numpy_" + t], r["pde_numba_" + t], TOL, scale_of(r["pde_numpy_" + t]))
-            print(f"t={c[t]}: PDE(expression) numpy vs compiled max abs diff {worst:.3g} {'ok' if good else 'DEVIATES'}")
-            ok = ok and good
-    return ok
+    c = {k: v for k, v in rep["case"].items() if k not in REPLAY_EXTRAS}
+    c["id"] = 0
+    if c.get("leg") not in ("A", "B", "C"):
+        print("not replayable: the recorded case has no leg")
+        return False
+    extras = {k: rep["case"][k] for k in REPLAY_EXTRAS if k in rep["case"]}
+    what = (rep.get("key") or {}).get("what")
+    mode = extras.get("exec_mode", "S")
+    rs = run_one("harness.c10", "worker", c, env={"NUMBA_DISABLE_JIT": "1"})
+    rj = run_one("harness.c10", "worker", c, env={"NUMBA_DISABLE_JIT": "0"}) if (mode == "J" or what == "S-vs-J") else None
+    for r, tag in ((rs, "S"), (rj, "J")):
+        if isinstance(r, str):
+            print(f"worker failed ({tag}): {r}")
+            return False
+    checks = monitor_checks(c, rs, rj)
+    if what is None:
+        print("the file records no symptom (key.what): judging every monitor of the case")
+    sel = []
+    for m in checks:
+        same = what is None or m["what"] == what
+        for k in ("exec_mode", "time", "route"):
+            if same and what is not None and k in extras and k in m["extra"] and m["extra"][k] != extras[k]:
+                same = False
+        tag = "recorded symptom" if same and what is not None else "other monitor  "
+        print(f"[{tag}] {m['what']:22s} {json_short(m['extra'])}: max abs diff {m['worst']:.3g} {'ok' if m['ok'] else 'FAILS'}"
+              + (f" ({m['key'].get('symptom')})" if m["key"].get("symptom") else "")
+              + (f"  {m['observed']}" if m["what"] == "raises" else ""))
+        if same:
+            sel.append(m)
+    if not sel:
+        # e.g. the case raised in the recorded run and now yields values (or vice versa): judge what exists
+        if what == "raises":
+            print("the recorded symptom (the real code raises) no longer occurs")
+            return all(m["ok"] for m in checks)
+        print("no monitor evaluation matches the recorded symptom: the case cannot be re-judged")
+        return False
+    return all(m["ok"] for m in sel)
+
+
+def json_short(d):
+    import json
+
+    return json.dumps({k: v for k, v in d.items() if k != "text"}, sort_keys=True)
